@@ -85,8 +85,31 @@ def run(rep, props, replay=None):
     grid2 = np.round(np.sort(rng.uniform(-1, 1, size=6)) * 64) / 64
     grid2 = np.unique(np.concatenate([[-1.0], grid2, [1.0]]))
     fams = ["bsplines", "legendre", "fourier", "wiener"]
+    grid3 = np.unique(np.round(np.sort(rng.uniform(2, 9, size=int(rng.integers(7, 14)))) * 32) / 32)   # non-uniform, shifted
     for f1 in fams:
         n1 = 5 if f1 == "bsplines" else 3
+        # the normalisation option on non-uniform grids (odd and even numbers of points)
+        from scipy.integrate import simpson
+        for gname, gg in (("non-uniform [-1,1]", grid2), ("non-uniform shifted", grid3)):
+            if len(gg) < 4:
+                continue
+            with warnings.catch_warnings():
+                warnings.simplefilter("ignore")
+                raw = np.asarray(Basis(name=f1, n_functions=n1, argvals=DenseArgvals({"input_dim_0": gg})).values, float)
+                nor = np.asarray(Basis(name=f1, n_functions=n1, argvals=DenseArgvals({"input_dim_0": gg}),
+                                       is_normalized=True).values, float)
+            rep.case(("basis-norm", f1, gg.tobytes()), kind=f"Basis-normalised/{f1}/{gname}",
+                     sample={"family": f1, "n_functions": n1, "grid": gname, "n_points": len(gg)})
+            nn = simpson(raw * raw, x=gg)
+            if np.all(nn > 1e-12):
+                badn = []
+                if np.max(np.abs(simpson(nor * nor, x=gg) - 1.0)) > 1e-9:
+                    badn.append("is_normalized=True does not give unit (Simpson) norms")
+                if np.max(np.abs(nor - raw / np.sqrt(nn)[:, None])) > 1e-9 * max(1.0, float(np.max(np.abs(nor)))):
+                    badn.append("normalised functions are not the functions divided by their norms")
+                if badn:
+                    rep.violation(f"Basis({f1}) on a {gname} grid: " + "; ".join(badn),
+                                  {"family": f1, "n_functions": n1, "grid": C.hexf(gg)})
         g1 = grid1
         with warnings.catch_warnings():
             warnings.simplefilter("ignore")
